@@ -154,7 +154,7 @@ def run_cseg(R, quick):
     import numpy as np
     rng = R.rng
     items = []      # (kind, buf, C, shape, blk, dt, src_values or None)
-    nvalid = 36 if quick else 150
+    nvalid = 36 if quick else 450
     for i in range(nvalid):
         cs = c02.gen_case(rng, True)
         if i % 3 == 0:   # keep most sources small so that targeted edits dominate
@@ -170,7 +170,7 @@ def run_cseg(R, quick):
         for kind, b, C, shape, blk, dt in cseg_mutants(rng, cs, buf, quick):
             items.append((kind, b, C, list(shape), list(blk), dt, a if kind == "valid" else None,
                           len(cs["values"]) > 1))
-    for _ in range(400 if quick else 10000):
+    for _ in range(400 if quick else 30000):
         n = rng.choice([0, 1, 3, 4, 7, 8, 11, 12, 16, 20, 24, rng.randrange(301)])
         style = rng.random()
         if style < 0.4:
@@ -257,7 +257,7 @@ def run_raw(R, quick):
     import numpy as np
     rng = R.rng
     items = []
-    for _ in range(500 if quick else 10000):
+    for _ in range(500 if quick else 30000):
         dt = rng.choice(list(RAW_TYPES))
         isz = RAW_TYPES[dt]
         C = rng.choice([1, 1, 2, 3])
@@ -347,10 +347,15 @@ def pil_oracle(buf):
         img.load()
     except OSError:
         return [mode.encode(), w, h, c02_atom("loadfail")], ("loadfail", mode)
+    except Exception as exc:  # noqa: BLE001 - same region (pixel load fails), another exception class
+        return None, ("loadfail-other:" + type(exc).__name__, mode)
     arr = np.asarray(img)
     bands = 1 if arr.ndim == 2 else arr.shape[2]
     if arr.dtype != np.uint8:
         return None, ("odd-dtype", mode)
+    if arr.size > 40000:
+        # a mutated header can announce a huge image; the glue model's list code is quadratic there
+        return None, ("too-large", mode)
     return [mode.encode(), w, h, bands, arr.tobytes()], ("pixels", mode)
 
 
@@ -370,7 +375,7 @@ def run_jpeg(R, quick):
     import PIL.Image
     rng = R.rng
     items = []
-    for _ in range(60 if quick else 70):
+    for _ in range(60 if quick else 200):
         C = rng.choice([1, 3])
         shape = [rng.choice([1, 2, 3, 8, 9, rng.randint(1, 12)]) for _ in range(3)]
         X, Y, Z = shape
@@ -430,8 +435,8 @@ def run_jpeg(R, quick):
             case = {"codec": "jpeg", "kind": kind, "C": C, "shape": shape, "buf": buf}
             R.case(case, nontrivial=info is not None)
             R.count(f"jpeg:{kind}:{impl[0]}")
-            if info is not None and info[0] == "odd-dtype":
-                R.notes.append("Pillow produced a non-uint8 image; glue model not consulted for it")
+            if info is not None and (info[0] in ("odd-dtype", "too-large") or info[0].startswith("loadfail-other")):
+                R.count(f"jpeg:model_not_consulted:{info[0]}")
             else:
                 mo = model_outcome(next(replies))
                 mod = ["ok", [list(mo[1][0]), "uint8", bytes(mo[1][1])]] if mo[0] == "ok" else mo
@@ -446,13 +451,18 @@ def run_jpeg(R, quick):
                 want_mode = {1: "L", 3: "RGB"}.get(C)
                 if impl == ["IOErr"] and info is not None and info[0] == "loadfail" and info[1] == want_mode:
                     R.known(F_JPEG)
+                elif (impl[0] == "Crash" and info is not None and info[0] == "loadfail-other:" + impl[1]
+                      and info[1] == want_mode):
+                    # same region (Pillow opened the file, the pixel load raised), other exception class
+                    R.known(F_JPEG)
+                    R.count("jpeg:load_failed_with:" + impl[1])
                 else:
                     R.violation("jpeg decoder raised something other than InvalidFormatError", case,
                                 {"impl": impl})
             if a is not None:
                 if impl[0] != "ok":
                     R.violation("valid JPEG data rejected", case, {"impl": impl})
-                elif info == ("pixels", {1: "L", 3: "RGB"}[C]):
+                elif info is not None and info[0] == "pixels" and info[1] == {1: "L", 3: "RGB"}[C]:
                     # lossy: compare with what Pillow decodes, rearranged per the documentation
                     img = np.asarray(PIL.Image.open(io.BytesIO(buf)))
                     ref = img.reshape(1, Z, Y, X) if C == 1 else np.moveaxis(img, -1, 0).reshape(3, Z, Y, X)
@@ -515,12 +525,41 @@ def _bytes(v):
     return bytes(v)
 
 
+def _replay_correspondence(R, case, buf):
+    """True iff model and implementation still differ on the recorded buffer."""
+    shape, C, codec = case["shape"], case["C"], case.get("codec")
+    with warnings.catch_warnings():
+        warnings.simplefilter("ignore")
+        if codec == "cseg":
+            enc = c02.make_encoder(case["dt"], C, case["blk"])
+            impl = c02.impl_arr(outcome_of(lambda: enc.decode(buf, shape)))
+            mrep, _g = R.model.call(*c02.dec_request(case["dt"], C, case["blk"], shape, buf))
+            return impl != c02.model_arr(mrep, case["dt"])
+        if codec == "raw":
+            isz = RAW_TYPES[case["dt"]]
+            enc = make_raw(case["dt"], C)
+            impl = raw_canon(outcome_of(lambda: enc.decode(buf, shape)), isz)
+            mo = model_outcome(R.model.call("raw_decode", [isz, C, list(shape), buf]))
+            mod = ["ok", [list(mo[1][0]), isz, bytes(mo[1][1])]] if mo[0] == "ok" else mo
+            return impl != mod
+        enc = make_jpeg(C)
+        impl = c02.impl_arr(outcome_of(lambda: enc.decode(buf, shape)))
+        pil, _info = pil_oracle(buf)
+        if pil is None:
+            return False
+        mo = model_outcome(R.model.call("jpeg_decode", [C, list(shape), pil]))
+        mod = ["ok", [list(mo[1][0]), "uint8", bytes(mo[1][1])]] if mo[0] == "ok" else mo
+        return impl != mod
+
+
 def replay(R, payload):
     """True iff the recorded buffer still makes the decoder misbehave."""
-    case = payload.get("case", {})
+    case = payload.get("case") or (payload.get("disagreements") or [{}])[0].get("case", {})
     if "buf" not in case:
         return True
     buf = _bytes(case["buf"])
+    if payload.get("kind") == "broken-correspondence-or-proof":
+        return _replay_correspondence(R, case, buf)
     shape = case["shape"]
     C = case["C"]
     X, Y, Z = shape
